@@ -688,7 +688,7 @@ def gen_trace(seed: int, tier: str, which=("c07",)) -> dict:
     thorough = tier == "thorough"
     n = r.randint(6, 22) if not thorough else r.randint(12, 60)
     events, sw = common.gen_history(seed, fault_rate=common.fault_arm(seed), n_events=n, families=["c07"], always=("c07",), ckpt=0.05, reopen=0.07, restart=0.04,
-                                    observe=0.02, jump=0.03, fork=0.0, warmup=False)
+                                    observe=0.02, jump=0.03, fork=0.03, warmup=False)
     rs = S("start")
     start = {"deck": rs.choice(CHART_DECKS), "form": rs.choice(["stream", "path", "dir"])}
     pre = [{"op": "add_slide", "layout": 6, "dt": 1.0}]
